@@ -1,2 +1,379 @@
+'''
+H2 of C01/C02/C03: the application-level slot finder
+(resource_config.NodeList / Node / NumaNode).
+
+Explicit-state search (engine A by replay): a state is the operation history
+reaching it; every transition calls the real find_slots / release_slots /
+allocate_slot on a NodeList rebuilt from the node list the real RM code
+produced; states are merged on a canonical form that contains everything the
+code reads (occupations, lfs, mem, round-robin index, failure cache) plus the
+oracle's ledger.
+'''
+
+import copy
+import collections
+
+from rpmc import seams, schedworld as sw
+
+rp = seams.import_rp()
+
+from radical.pilot import constants as rpc                         # noqa: E402
+from radical.pilot.resource_config import (NodeList, Node, NumaNode, Slot,
+                                           RankRequirements, RO,
+                                           NumaDomain)            # noqa: E402
+
+EPS = 1e-9
+
+LAYOUTS = {
+    'N1x4g2'  : dict(nodes=1, cores=4, gpus=2, lfs=2, mem=2),
+    'N2x2g1'  : dict(nodes=2, cores=2, gpus=1, lfs=2, mem=2),
+    'N2x4g2b' : dict(nodes=2, cores=4, gpus=2, lfs=2, mem=2,
+                     blocked_cores=[0], blocked_gpus=[1]),
+    # node indices are not list positions (a node was dropped from the
+    # allocation, e.g. an unreachable node with backup nodes)
+    'N2x2gap' : dict(nodes=2, cores=2, gpus=1, lfs=2, mem=2, gap=True),
+    'N1x4numa': dict(nodes=1, cores=4, gpus=2, lfs=2, mem=2,
+                     numa={0: ([0, 1], [0]), 1: ([2, 3], [1])}),
+}
+
+RRS = {
+    '1c'   : dict(n_cores=1),
+    '2c'   : dict(n_cores=2),
+    '1c1g' : dict(n_cores=1, n_gpus=1),
+    '1chg' : dict(n_cores=1, n_gpus=1, gpu_occupation=0.5),
+    '1cl'  : dict(n_cores=1, lfs=1),
+    '1cm'  : dict(n_cores=1, mem=2),
+    'hc'   : dict(n_cores=1, core_occupation=0.5),
+    '1cN'  : dict(n_cores=1, n_gpus=1, numa=True),
+    '1cNl' : dict(n_cores=1, lfs=1, numa=True),
+    '5c'   : dict(n_cores=5),
+}
+
+
+_nl_cache = dict()
+
+
+def build(layout):
+    key = repr(sorted(layout.items(), key=repr))
+    lay = dict(layout)
+    gap  = lay.pop('gap', False)
+    numa = lay.pop('numa', None)
+    if key not in _nl_cache:
+        if gap:
+            lay['nodes'] += 1
+        sw.fresh_rminfo_defaults()
+        rm = sw.SynthRM(lay)
+        node_list = seams.wire(rm.info.node_list)
+        if gap:
+            del node_list[1]
+        _nl_cache[key] = node_list
+    node_list = copy.deepcopy(_nl_cache[key])
+    if numa:
+        ndm = {k: NumaDomain(cores=c, gpus=g) for k, (c, g) in numa.items()}
+        nodes = [NumaNode(n, ndm) for n in node_list]
+    else:
+        nodes = [Node(n) for n in node_list]
+    nl = NodeList(nodes=nodes)
+    nl.verify()
+    return nl, node_list
+
+
+def ops_for(layout_name, quick):
+    ops = list()
+    rrs = ['1c', '2c', '1c1g', '1chg', '1cl', '1cm']
+    if not quick:
+        rrs += ['hc', '5c']
+    if 'numa' in layout_name:
+        rrs = ['1c', '1c1g', '1cN', '1chg', '1cNl', '1cl']
+    for r in rrs:
+        for n in (1, 2, 3):
+            ops.append(('find', r, n))
+    for i in range(3):
+        ops.append(('release', i))
+    lay = LAYOUTS[layout_name]
+    first = 1 if lay.get('blocked_cores') else 0
+    ops.append(('alloc', 0, (first,), ()))         # a free (or held) core
+    ops.append(('alloc', 0, (first, first + 1), (0,)))
+    ops.append(('alloc', 0, (0,), (1,)))           # maybe blocked
+    ops.append(('alloc', 0, (9,), ()))             # out of range
+    return ops
+
+
+class Violation(Exception):
+    def __init__(self, prop, key, detail):
+        self.prop, self.key, self.detail = prop, key, detail
+
+
+def occupancy(nl):
+    return [([ro.occupation for ro in n.cores],
+             [ro.occupation for ro in n.gpus], n.lfs, n.mem) for n in nl.nodes]
+
+
+def slot_read(s):
+    return {'node_index': s.node_index, 'node_name': s.node_name,
+            'cores': [(ro.index, ro.occupation) for ro in s.cores],
+            'gpus' : [(ro.index, ro.occupation) for ro in s.gpus],
+            'lfs'  : s.lfs or 0, 'mem': s.mem or 0}
+
+
+def run_history(layout_name, hist):
+    '''
+    apply the operation history to a fresh NodeList; returns (canon, trace).
+    Raises Violation at the first failed clause.
+    '''
+    nl, initial = build(LAYOUTS[layout_name])
+    init_occ = occupancy(nl)
+    by_index = {n['index']: n for n in initial}
+    held  = list()     # list of lists of slot_read dicts (live results)
+    trace = list()
+
+    def ledger_check(site, trig):
+        cores, gpus = collections.Counter(), collections.Counter()
+        lfs, mem    = collections.Counter(), collections.Counter()
+        for res in held:
+            for s in res:
+                n = s['node_index']
+                ini = by_index.get(n)
+                if ini is None:
+                    raise Violation('C01', 'node-not-offered|%s|%s'
+                                    % (site, trig), 'slot on %s/%s'
+                                    % (n, s['node_name']))
+                if ini['name'] != s['node_name']:
+                    raise Violation('C02', 'node-name-index|%s|%s'
+                                    % (site, trig), 'slot names node %s, node '
+                                    '%s is %s' % (s['node_name'], n,
+                                                  ini['name']))
+                for kind, acc in (('cores', cores), ('gpus', gpus)):
+                    for i, o in s[kind]:
+                        if not 0 <= i < len(ini[kind]):
+                            raise Violation('C01', 'index-range|%s|%s:%s'
+                                            % (site, trig, kind),
+                                            '%s %d on node %s' % (kind, i, n))
+                        if ini[kind][i] is rpc.DOWN:
+                            raise Violation('C01', 'blocked-granted|%s|%s:%s'
+                                            % (site, trig, kind),
+                                            'blocked %s %d handed out'
+                                            % (kind, i))
+                        acc[(n, i)] += o
+                lfs[n] += s['lfs']
+                mem[n] += s['mem']
+        for acc, what in ((cores, 'core-shared'), (gpus, 'gpu-share-sum')):
+            for k, v in acc.items():
+                if v > 1 + EPS:
+                    raise Violation('C01', '%s|%s|%s' % (what, site, trig),
+                                    '%s occupied %.2f' % (k, v))
+        for n, v in lfs.items():
+            if v > (by_index[n]['lfs'] or 0) + EPS:
+                raise Violation('C01', 'lfs-sum|%s|%s' % (site, trig),
+                                'node %s lfs held %s' % (n, v))
+        for n, v in mem.items():
+            if v > (by_index[n]['mem'] or 0) + EPS:
+                raise Violation('C01', 'mem-sum|%s|%s' % (site, trig),
+                                'node %s mem held %s' % (n, v))
+
+    def expected_occ():
+        exp = copy.deepcopy(init_occ)
+        pos = {n.index: i for i, n in enumerate(nl.nodes)}
+        for res in held:
+            for s in res:
+                p = pos[s['node_index']]
+                c, g, l, m = exp[p]
+                for i, o in s['cores']: c[i] += o
+                for i, o in s['gpus'] : g[i] += o
+                exp[p] = (c, g, l - s['lfs'], m - s['mem'])
+        return exp
+
+    def occ_equal(a, b):
+        for (c1, g1, l1, m1), (c2, g2, l2, m2) in zip(a, b):
+            for x, y in zip(c1 + g1, c2 + g2):
+                if (x is None) != (y is None):
+                    return False
+                if x is not None and abs(x - y) > EPS:
+                    return False
+            if l1 != l2 or m1 != m2:
+                return False
+        return True
+
+    for op in hist:
+        before = occupancy(nl)
+
+        if op[0] == 'find':
+            rr = RankRequirements(**RRS[op[1]])
+            n  = op[2]
+            try:
+                res = nl.find_slots(rr, n)
+                exc = None
+            except Exception as e:
+                res, exc = None, e
+            if not res:
+                trace.append((op, 'none' if exc is None
+                                         else type(exc).__name__))
+                if not occ_equal(before, occupancy(nl)):
+                    raise Violation('C03', 'failed-find-leaks|NodeList.'
+                                    'find_slots|%s' % op[1],
+                                    'occupancy changed by a failed find: '
+                                    '%s -> %s' % (before, occupancy(nl)))
+                continue
+            got = [slot_read(s) for s in res]
+            trace.append((op, [(s['node_index'],
+                                [i for i, _ in s['cores']],
+                                [i for i, _ in s['gpus']]) for s in got]))
+            # C02: shape
+            d = RRS[op[1]]
+            if len(got) != n:
+                raise Violation('C02', 'slot-count|NodeList.find_slots|%s'
+                                % op[1], '%d slots for %d' % (len(got), n))
+            for s in got:
+                ci = [i for i, _ in s['cores']]
+                gi = [i for i, _ in s['gpus']]
+                ok = len(ci) == d.get('n_cores', 1) == len(set(ci)) and \
+                     len(gi) == d.get('n_gpus', 0) == len(set(gi)) and \
+                     all(abs(o - d.get('core_occupation', 1.0)) < EPS
+                         for _, o in s['cores']) and \
+                     all(abs(o - d.get('gpu_occupation', 1.0)) < EPS
+                         for _, o in s['gpus']) and \
+                     s['lfs'] == d.get('lfs', 0) and s['mem'] == d.get('mem', 0)
+                if not ok:
+                    raise Violation('C02', 'slot-shape|Node.find_slot|%s'
+                                    % op[1], 'slot %s for %s' % (s, d))
+            held.append(got)
+            ledger_check('NodeList.find_slots', op[1])
+
+        elif op[0] == 'release':
+            if op[1] >= len(held):
+                trace.append((op, 'skip'))
+                continue
+            res = held.pop(op[1])
+            slots = [Slot(cores=[RO(index=i, occupation=o)
+                                 for i, o in s['cores']],
+                          gpus=[RO(index=i, occupation=o)
+                                for i, o in s['gpus']],
+                          lfs=s['lfs'], mem=s['mem'],
+                          node_index=s['node_index'],
+                          node_name=s['node_name']) for s in res]
+            try:
+                nl.release_slots(slots)
+                trace.append((op, 'ok'))
+            except Exception as e:
+                raise Violation('C03', 'release-raises|NodeList.release_slots|'
+                                '%s' % type(e).__name__, repr(e))
+            if not occ_equal(expected_occ(), occupancy(nl)):
+                raise Violation('C03', 'release-restores|NodeList.release_slots'
+                                '|-', 'after release: %s, ledger expects %s'
+                                % (occupancy(nl), expected_occ()))
+
+        elif op[0] == 'alloc':
+            _, pos, cores, gpus = op
+            node = nl.nodes[pos]
+            slot = Slot(cores=[RO(index=i, occupation=1.0) for i in cores],
+                        gpus=[RO(index=i, occupation=1.0) for i in gpus],
+                        lfs=0, mem=0, node_index=node.index,
+                        node_name=node.name)
+            try:
+                node.allocate_slot(slot)
+                ok = True
+            except Exception as e:
+                ok = False
+                trace.append((op, type(e).__name__))
+            if ok:
+                trace.append((op, 'ok'))
+                held.append([slot_read(slot)])
+                ledger_check('Node.allocate_slot', 'explicit')
+            elif not occ_equal(before, occupancy(nl)):
+                raise Violation('C03', 'refused-alloc-leaks|Node.allocate_slot'
+                                '|-', 'occupancy changed by a refused '
+                                'allocate_slot')
+
+        # scheduler view == ledger view after every operation
+        if not occ_equal(expected_occ(), occupancy(nl)):
+            raise Violation('C03', 'occupancy-drift|%s|-' % op[0],
+                            'after %s: %s, ledger expects %s'
+                            % (op, occupancy(nl), expected_occ()))
+
+    if not held and not occ_equal(init_occ, occupancy(nl)):
+        raise Violation('C03', 'not-restored|NodeList|-',
+                        'nothing held but %s != initial %s'
+                        % (occupancy(nl), init_occ))
+
+    lf = nl.__last_failed_rr__
+    canon = (repr(occupancy(nl)), nl.__index__,
+             None if lf is None else repr(dict(lf)), nl.__last_failed_n__,
+             repr(held))
+    return canon, trace
+
+
+def bfs(layout_name, quick, pid, ctx, first):
+    '''
+    BFS over operation histories starting with operation `first` (the search
+    is partitioned by first operation to use all cores; states are merged
+    within a partition)
+    '''
+    ops   = ops_for(layout_name, quick)
+    depth = 4 if quick else 6
+    seen  = dict()
+    front = collections.deque()
+    n_trans = 0
+
+    def step(nxt):
+        nonlocal n_trans
+        n_trans += 1
+        try:
+            canon, trace = run_history(layout_name, nxt)
+        except Violation as v:
+            if v.prop == pid:
+                ctx.violation('%s:%s' % (v.key, layout_name),
+                              {'what': v.detail, 'history': nxt},
+                              {'kind': 'nodelist', 'layout': layout_name,
+                               'history': nxt})
+            return
+        ctx.outcome(('nodelist', layout_name, repr(trace[-1])))
+        if canon not in seen:
+            seen[canon] = nxt
+            front.append(nxt)
+
+    step((ops[first],))
+    while front:
+        hist = front.popleft()
+        if len(hist) >= depth:
+            continue
+        for op in ops:
+            step(hist + (op,))
+    return len(seen), n_trans
+
+
+def _job(args):
+    from rpmc import report
+    layout_name, quick, pid, first = args
+    part = report.Part()
+    states, trans = bfs(layout_name, quick, pid, part, first)
+    part.cover(states=states, transitions=trans, nodelist_states=states,
+               nodelist_transitions=trans,
+               traces_validated_against_impl=trans)
+    if first == 0:
+        part.sample({'nodelist_layout': layout_name, 'first_op': first,
+                     'states': states, 'transitions': trans})
+    return part.dump()
+
+
 def run_nodelist(ctx, pid):
-    pass
+    jobs = [(name, ctx.quick, pid, i) for name in LAYOUTS
+            for i in range(len(ops_for(name, ctx.quick)))]
+    for res in seams.pmap(_job, jobs, ctx.workers):
+        ctx.merge(res)
+    ctx.assume('NodeList is built from the node list produced by the real RM '
+               'code, as Pilot.nodelist does')
+
+
+def replay_nodelist(r):
+    try:
+        canon, trace = run_history(r['layout'],
+                                   tuple(tuple(tuple(y) if isinstance(y, list)
+                                               else y for y in x)
+                                         for x in r['history']))
+        for t in trace:
+            print('   ', t)
+        print('no violation')
+        return 0
+    except Violation as v:
+        print('VIOLATED', v.prop, v.key, v.detail)
+        return 1
